@@ -15,6 +15,8 @@ func init() { register("C14", "model_checking", runC14) }
 
 func planKind(s band.VerifBandSnapshot) string {
 	switch {
+	case s.SupportsExtraChannels && len(s.UplinkChannels) > 16:
+		return "dynamic-extended"
 	case s.SupportsExtraChannels:
 		return "dynamic"
 	case len(s.UplinkChannels) == 72:
@@ -241,6 +243,44 @@ func runC14(r *engine.Run) {
 					}
 				}
 				c14Pair(c, name, b, s, fmt.Sprintf("16-channel plan, network pattern %04x", pat), dev)
+			}
+		})
+	}
+
+	// ---- dynamic plans grown past 16 channels (20 channels: a full block and a 4-channel block)
+	r.Assume("the Regional Parameters limit the dynamic plans to 16 channels; the library lets them grow and addresses block k with ChMaskCntl k: for such plans the device model applies that generic block rule (mc/spec/region.go, plan 'dynamic-extended')")
+	blk0 := []uint16{0xFFFF, 0x0007, 0xFFF8, 0x5555, 0x8001, 0x0000}
+	for _, name := range bandNames {
+		cfg := bandCfg{name, false, lorawan.DwellTimeNoLimit}
+		init := snapOf(newBand(cfg))
+		if !init.SupportsExtraChannels {
+			continue
+		}
+		name := name
+		r.PartDims("two-blocks/"+string(name), []string{"network: block-0 pattern(6) x block-1 subset(16)", "device: block-0 pattern(6) x block-1 subset(16) (inner)"}, 6*16, func(c *engine.Case) {
+			b := newBand(cfg)
+			base := init.UplinkChannels[0].Frequency
+			for k := len(init.UplinkChannels); k < 20; k++ {
+				b.AddChannel(base+10000000+uint32(k)*200000, init.CFListMinDR, init.CFListMaxDR)
+			}
+			netMask := uint32(blk0[c.Index/16]) | uint32(c.Index%16)<<16
+			for i := 0; i < 20; i++ {
+				if netMask&(1<<uint(i)) == 0 {
+					b.DisableUplinkChannelIndex(i)
+				}
+			}
+			s := snapOf(b)
+			for d0 := range blk0 {
+				for d1 := 0; d1 < 16; d1++ {
+					devMask := uint32(blk0[d0]) | uint32(d1)<<16
+					var dev []int
+					for i := 0; i < 20; i++ {
+						if devMask&(1<<uint(i)) != 0 {
+							dev = append(dev, i)
+						}
+					}
+					c14Pair(c, name, b, s, fmt.Sprintf("20-channel plan, network mask %05x", netMask), dev)
+				}
 			}
 		})
 	}
